@@ -35,6 +35,13 @@ func (h *connHandler) Echo(ctx context.Context, token int) (int, error) {
 	return token, nil
 }
 
+// Plain has no error result: a failed call hands its caller the zero value; the library must still not re-send it
+func (h *connHandler) Plain(ctx context.Context, token int) int {
+	h.enter("plain", token)
+	h.env.tr.ev("h.end", token, ctx.Err() != nil)
+	return token
+}
+
 func (h *connHandler) Retry(ctx context.Context, token int) (int, error) {
 	h.enter("retry", token)
 	h.env.tr.ev("h.end", token, ctx.Err() != nil)
@@ -96,9 +103,12 @@ func (h *connHandler) Sub(ctx context.Context, token int, n int) (<-chan int, er
 	ch := make(chan int, buf)
 	hold := h.env.holdOf(token)
 	go func() {
+		closeIt := true
 		defer func() {
-			h.env.tr.ev("prod.close", token)
-			close(ch)
+			if closeIt {
+				h.env.tr.ev("prod.close", token)
+				close(ch)
+			}
 		}()
 		for i := 0; i < n; i++ {
 			v := token*1000 + i
@@ -111,6 +121,7 @@ func (h *connHandler) Sub(ctx context.Context, token int, n int) (<-chan int, er
 				h.env.tr.ev("prod.send", token, v)
 			case <-ctx.Done():
 				h.env.tr.ev("h.ctxdone", token)
+				closeIt = !h.env.subNoClose // a producer may simply stop when its context ends, without closing
 				return
 			}
 		}
@@ -119,6 +130,7 @@ func (h *connHandler) Sub(ctx context.Context, token int, n int) (<-chan int, er
 			case <-hold:
 			case <-ctx.Done():
 				h.env.tr.ev("h.ctxdone", token)
+				closeIt = !h.env.subNoClose
 			}
 		}
 	}()
@@ -186,9 +198,25 @@ func (h *connHandler) SubS(ctx context.Context, token int, n int) (<-chan cpElem
 	return ch, nil
 }
 
+// SubWait is a subscribing method that is slow to hand out its channel: it waits (up to 1.5s) for its context
+func (h *connHandler) SubWait(ctx context.Context, token int, n int) (<-chan int, error) {
+	h.env.tr.ev("h.start", token, "subwait")
+	h.env.execs.Store(token, h.env.execCount(token)+1)
+	select {
+	case <-ctx.Done():
+		h.env.tr.ev("h.ctxdone", token)
+	case <-time.After(1500 * time.Millisecond):
+	}
+	ch := make(chan int)
+	close(ch)
+	h.env.tr.ev("h.end", token, ctx.Err() != nil)
+	return ch, nil
+}
+
 type connClient struct {
 	Echo     func(ctx context.Context, token int) (int, error)
 	Retry    func(ctx context.Context, token int) (int, error) `retry:"true"`
+	Plain    func(ctx context.Context, token int) int
 	Fail     func(ctx context.Context, token int) (int, error)
 	Big      func(ctx context.Context, token int, size int) (string, error)
 	Note     func(token int) error `notify:"true"`
@@ -196,6 +224,7 @@ type connClient struct {
 	NoteWait func(ctx context.Context, token int) error `notify:"true"`
 	Sub      func(ctx context.Context, token int, n int) (<-chan int, error)
 	SubS     func(ctx context.Context, token int, n int) (<-chan cpElem, error)
+	SubWait  func(ctx context.Context, token int, n int) (<-chan int, error)
 }
 
 type callRec struct {
@@ -223,6 +252,7 @@ type connEnv struct {
 	nextTok    int32
 	subBuf     int
 	prodGate   func(token, i int)
+	subNoClose bool // Sub producers stop on a cancelled context without closing their channel
 	backoffMin time.Duration
 	srvCancel  context.CancelFunc
 }
@@ -320,6 +350,9 @@ func classify(token int, v interface{}, err error) (string, string) {
 			if x == token {
 				return "ok", ""
 			}
+			if x == 0 {
+				return "zero", "" // a method without an error result whose call failed: the zero value, silently
+			}
 			if x == -token {
 				return "ok-cancelled", ""
 			}
@@ -367,6 +400,8 @@ func (e *connEnv) call(kind string, ctx context.Context, extra ...int) int {
 			v, err = e.cl.Echo(ctx, token)
 		case "retry":
 			v, err = e.cl.Retry(ctx, token)
+		case "plain":
+			v = e.cl.Plain(ctx, token)
 		case "fail":
 			v, err = e.cl.Fail(ctx, token)
 		case "big":
